@@ -310,9 +310,31 @@ PROPERTIES['C03'] = dict(
                'contracts - preconditions asserted, postconditions assumed - on a symbolic table of arbitrary length; both contracts are discharged against the code in the same check): '
                'for t before the first row, at or after the last row, and inside row i\'s interval with the civil second of t before / at-or-after row i+1\'s civil second, looking '
                'the civil second of t up again is never SKIPPED and is UNIQUE with pre == t or REPEATED with t == pre or t == post.  The four scenarios are exhaustive for non-extended '
-               'zones; reachability probes (pl_C03_probe_a/b, run by hand) confirm the scenario assumptions are satisfiable and that the REPEATED answer really occurs.',
+               'zones; reachability probes (pl_C03_probe_a/b: assertions that must FAIL, run on every check - a probe that does not fail makes the check undecided) confirm the scenario '
+               'assumptions are satisfiable and that the REPEATED answer really occurs.',
     level_note='PARTIAL. Assumed per scenario: instances, at rows i, i+1, i+2, 0 and n-1, of the table invariants (WFI/TYWF/MARGIN, order by unix time and by civil time) and of the '
                'spacing "offset changes farther apart than the sum of their sizes" (two days), as in the property\'s quantifier. NOT decided: the converse clause (every instant '
                'returned for a UNIQUE or REPEATED civil second displays that civil second), zones in their footer-extended years (extended_), and Load establishing the invariants.',
     trusted_base=ZONE_TRUSTED, not_decided='converse direction; extended_ years; Load', assumptions=ZONE_ASSUME + ['C library model: malloc in the lemma harness is assumed to succeed'],
 )
+
+
+# ---- vacuity probes: lemma harnesses whose final assertion must FAIL (tools/report.py) ---------------------------------------------------
+def _probe(g):
+    g.probe = True
+    return g
+
+
+def c03_probes():
+    return [_probe(G(n, 'zone', harness=n, kind='lemma', replace=['BreakTime', 'MakeTime'], backends=('cvc5bv',), timeout=900, defines=['OSEC_OPAQUE']))
+            for n in ('pl_C03_probe_a', 'pl_C03_probe_b')]
+
+
+def c05_probes():
+    return [_probe(G('pl_C05_probe', 'civil', harness='pl_C05_probe', kind='lemma', replace=['ct_second_plus', 'ct_second_minus'], timeout=600))]
+
+
+_c03_goals = PROPERTIES['C03']['goals']
+PROPERTIES['C03']['goals'] = lambda: _c03_goals() + c03_probes()
+_c05_goals = PROPERTIES['C05']['goals']
+PROPERTIES['C05']['goals'] = lambda: _c05_goals() + c05_probes()
